@@ -77,6 +77,7 @@ CHECKS["C20"] = dict(
     assumptions=["the v2/v3 character-level mutations run only in the child worker; in-process v2/v3 strings are truncations / suffix changes"],
     legs=[
         dict(name="license", test="^TestLicenseRoundtrip$", quick=dict(n=3000, procs=1, timeout=300), thorough=dict(n=200000, procs=2, timeout=1800)),
+        dict(name="generated", test="^TestGeneratedLicenses$", kind="plain", quick=dict(n=300, procs=1, timeout=300), thorough=dict(n=30000, procs=2, timeout=1800)),
         dict(name="key", test="^TestKeyRoundtrip$", quick=dict(n=20000, procs=2, timeout=300), thorough=dict(n=5000000, procs=6, timeout=3000)),
         dict(name="collisions", test="^TestNoCollisions$", kind="plain", quick=dict(n=20000, procs=1, timeout=300), thorough=dict(n=300000, procs=2, timeout=1800)),
         dict(name="concurrent", test="^TestConcurrentCipher$", kind="plain", quick=dict(n=20000, procs=1, timeout=300), thorough=dict(n=400000, procs=1, timeout=1800)),
